@@ -222,7 +222,8 @@ class EnvScenario(StateScenario):
                          % (bound[invalid[0]][0], bound[invalid[0]][1], invalid[0], node["kind"], canon(ops.resolve(cfg, invalid[0]))))
             if not isinstance(err, ValidationError):
                 rec.fail("C14/invalid", "C14/invalid-variable-wrong-exception/%s" % type(err).__name__, "construction raised %r" % (err,))
-            if err.ref_path not in invalid:
+            maybe = [p for p, (_, _, r) in bound.items() if r == model.UNSPEC]    # the model makes no claim on these
+            if err.ref_path not in invalid and err.ref_path not in maybe:
                 rec.fail("C14/invalid", "C14/invalid-variable-error-names-other-field", "construction failed naming %r; invalid variables bind %r" % (err.ref_path, invalid))
             st.cfgs = []
             return
